@@ -1455,10 +1455,16 @@ def execute(program, ctx, mode):
                         outcome = 'ok'
                     except Unreadable:
                         outcome = 'Unreadable'
-                        mutlog.append(('reg', r, real_req(rq), P[pp], nm, v))       # the twins replay it as an ordinary registration
                 finally:
                     regs[b].__dict__.pop('_unreadable', None)
-                live[(r, rq, pp, nm)] = v
+                if outcome == 'ok' or regs[r].registered(real_req(rq), P[pp], nm) is v:
+                    # recorded (the library stores first and notifies afterwards); were it rolled back instead, that would be
+                    # a legitimate choice too: the model follows what `registered` says, and everything else must agree with it
+                    if outcome != 'ok':
+                        mutlog.append(('reg', r, real_req(rq), P[pp], nm, v))       # the twins replay it as an ordinary registration
+                    live[(r, rq, pp, nm)] = v
+                else:
+                    outcome += '/rolled-back'
                 ctx.fault('cb-raise-in-change-notification-of-a-mutator')
                 last_mut[0] = 'register'
                 ctx.log(step, 'flaky', r, b, rq, pp, nm, v, outcome)
